@@ -8,7 +8,7 @@ from vlib import render as RR
 
 ID = "C13"
 # look-alikes of prelude names (vlib/defs.py HOSTILE) this check's derives are immune to on the unchanged tree
-HOSTILE_OK = ['Default', 'From', 'Into', 'Result', 'Ok', 'Iterator', 'Clone', 'AsRef', 'Send', 'PhantomData', 'IterGet', 'm_matches', 'm_assert', 'm_fmt', 'c_binders']
+HOSTILE_OK = ['Default', 'From', 'Into', 'Result', 'Ok', 'Iterator', 'Clone', 'AsRef', 'Send', 'PhantomData', 'IterGet', 'm_matches', 'm_assert', 'm_fmt', 'c_binders', 'ByValue']
 PROP_FILE = "Props/C13.v"
 RULE = ("enums with 0-8 variants x kinds x 0-3 tuple fields of pairwise distinct types x generics / lifetimes x identifiers with "
         "digits, acronyms and underscores (the generated method NAMES are taken from the model and called: a naming difference is a "
